@@ -239,6 +239,33 @@ def check(model: Model, run: Run) -> None:
             continue
         run.check(a in compared, eq.qualname, 'compares neighbor.%s (read by %s when the OPEN is built)' % (a, where), eq.loc(), 'a reload that changes only neighbor.%s yields a neighbor equal to the running one: Reactor.reload calls reconfigure() and the session keeps the capabilities of the OLD OPEN, so the routes of the new configuration that depend on it are not delivered as configured' % a)
 
+    # ------------------------------------------------------------------ R9 a reload reaches a session that is down
+    run.rule(
+        'C17.R9',
+        'Peer.reconfigure applies the difference to the Adj-RIB-Out at once whenever the established loop is not running to do it: '
+        'the direct replace_reload() is taken for every FSM state but ESTABLISHED (the one state in which _main consumes the pending '
+        'neighbor) - with a narrower test (IDLE only) a second reload while the peer waits in ACTIVE / CONNECT overwrites the '
+        'one-deep `previous` link before the first was applied, and the routes it removed are announced when the session comes up',
+        floor=1,
+    )
+    rc = model.funcs.get('exabgp.reactor.peer.peer.Peer.reconfigure')
+    if rc is None:
+        run.cannot('Peer.reconfigure vanished')
+    else:
+        run.analysed(rc)
+        rcalls = model.calls_to(rc.module, rc.node, 'OutgoingRIB.replace_reload')
+        if not rcalls:
+            run.cannot('Peer.reconfigure: replace_reload() call not found')
+        for c in rcalls:
+            states = []
+            for t, pol in flat_guards(rc.node, c, parent_map(rc.node)):
+                if isinstance(t, ast.Compare) and len(t.ops) == 1 and 'fsm' in norm(t.left) and isinstance(t.ops[0], (ast.Eq, ast.NotEq)):
+                    st_name = (dotted(t.comparators[0]) or '').rsplit('.', 1)[-1]
+                    excluded = isinstance(t.ops[0], ast.NotEq) == pol  # the call runs when fsm is NOT that state
+                    states.append((st_name, excluded))
+            ok9 = states == [('ESTABLISHED', True)]
+            run.check(ok9, rc.qualname, 'the offline branch is taken for every state but ESTABLISHED (%s)' % states, rc.loc(c), 'found %s: (state, True) reads "taken when the FSM is not in that state"' % states)
+
     # ------------------------------------------------------------------ R6 what _clear resets, the rollback puts back
     run.rule(
         'C17.R6',
